@@ -904,7 +904,7 @@ class World:
             self.skipped_ops += 1
             return
         cid = old.obj[old.creator].id
-        if cid is None:
+        if cid is None or self.id_in_use(cid, but=old):
             self.skipped_ops += 1
             return
         spec = dict(old.spec, tag=op["newtag"], negotiated=True, id=cid, label="reuse", protocol="",
@@ -912,6 +912,18 @@ class World:
         self._op_create(dict(spec, op="create"))
         self._op_create_peer({"tag": op["newtag"], "side": "B" if op["side"] == "A" else "A"})
         self.probes["id_reused_during_faults"] += 1
+
+    def id_in_use(self, cid, but=None):
+        """Some other channel (either end) currently holds this id and is not closed: an application
+        would not hand the id to a new negotiated channel."""
+        for m in self.chans.values():
+            if m is but:
+                continue
+            for s in "AB":
+                o = m.obj[s]
+                if o is not None and o.id == cid and o.readyState != "closed":
+                    return True
+        return False
 
     def sendable(self, model, side):
         chan = model.obj[side]
@@ -1136,8 +1148,23 @@ class World:
         one fresh message per partially reliable channel must arrive too (C06)."""
         sent_any = False
         pr_probes = []
+
+        def timers_idle():
+            # nothing at all outstanding: no retransmission timer armed (e.g. for a FORWARD-TSN that is
+            # still being repeated).  A T3 armed earlier would, when it fires, legitimately abandon a
+            # fresh message whose lifetime is a few milliseconds.
+            try:
+                return all(self.sctp[s]._t3_handle is None and self.sctp[s]._forward_tsn_chunk is None for s in "AB")
+            except AttributeError:
+                return True
+
+        pr_ok = await self.wait_until(timers_idle, 200.0)
+        if not pr_ok:
+            self.exempt["pr_probe_skipped_timers_not_idle"] += 1
         for model in self.chans.values():
             if model.broken or model.exempt:
+                continue
+            if not model.reliable and not pr_ok:
                 continue
             for side in "AB":
                 if not self.sendable(model, side):
@@ -1207,7 +1234,8 @@ class World:
             model.broken = True
         # 2. a freed id can be reused by a new channel that works
         reusable = [m for m in self.chans.values() if closed_both(m) and not m.broken
-                    and m.obj[m.creator] is not None and m.obj[m.creator].id is not None]
+                    and m.obj[m.creator] is not None and m.obj[m.creator].id is not None
+                    and not self.id_in_use(m.obj[m.creator].id, but=m)]
         if reusable:
             old = reusable[0]
             cid = old.obj[old.creator].id
